@@ -62,7 +62,8 @@ pub fn outside<T: Flt>(src: &mut Src, x: &[f64]) -> (f64, &'static str) {
     let n = x.len();
     let (lo, hi) = (T::of(x[0]), T::of(x[n - 1]));
     let span = x[n - 1] - x[0];
-    let (jlo, jhi) = if T::MANT == 53 { (-10, 40) } else { (-6, 8) };
+    // up to 2^150 spans away (f32: 2^30): far beyond 2^53 (2^24) interval widths, where t + 1 == t, and still finite
+    let (jlo, jhi) = if T::MANT == 53 { (-10, if src.chance(1, 4) { 150 } else { 40 }) } else { (-6, if src.chance(1, 4) { 30 } else { 8 }) };
     // the origin, when it lies outside the range ("extrapolate to the intercept")
     if !(x[0] <= 0.0 && 0.0 <= x[n - 1]) && src.chance(1, 6) {
         return (if src.bool() { 0.0 } else { -0.0 }, "out:zero");
